@@ -343,8 +343,11 @@ def main(argv):
         "violations": len(violations),
     }
     if not replay:
-        os.makedirs(os.path.join(VERIF, "evidence"), exist_ok=True)
-        with open(os.path.join(VERIF, "evidence", prop + ".json"), "w") as fh:
+        # VERIF_EVIDENCE_DIR: runs against a deliberately changed tree (lib/seedrun.sh) write elsewhere, so that
+        # evidence/ only ever holds what a run against /repo as it stands produced
+        evdir = os.environ.get("VERIF_EVIDENCE_DIR") or os.path.join(VERIF, "evidence")
+        os.makedirs(evdir, exist_ok=True)
+        with open(os.path.join(evdir, prop + ".json"), "w") as fh:
             json.dump(ev, fh, indent=1)
     for l in known_lines:
         print(l)
